@@ -19,4 +19,6 @@ def jobs(tier, ws, prop='C11'):
                   replace=['ncmpio_wait.c:calculate_access_range', 'qsort', 'ncmpio_wait.c:req_aggregation', 'ncmpio_write_numrecs'], extra_src=MODEL,
                   canaries=['grew', 'agg_error_returned', 'wrote'], unwind=40, kind='bounded', timeout=600, rfp=True,
                   bound='2 sub-requests with symbolic access ranges', assumptions=['wait_getput: calculate_access_range, qsort and req_aggregation by (assumed) contract']))
+    import C02
+    js += C02.commit_jobs(tier, prop, only=[(2, 1), (2, 3)] if tier == 'quick' else None) if prop == 'C11' else []   # F19: write-phase error kept
     return js
